@@ -1,6 +1,9 @@
 import CuqiVerif.Model.Proto
 import CuqiVerif.Model.QMat
 import CuqiVerif.Model.C06
+import CuqiVerif.Model.C06_factor
+import CuqiVerif.Model.C06_loop
+import CuqiVerif.Model.C06_ugla
 open CuqiVerif CuqiVerif.Proto CuqiVerif.C06
 
 /-!
@@ -19,6 +22,13 @@ open CuqiVerif CuqiVerif.Proto CuqiVerif.C06
   `ugla <n> <m> <A> <d> <L1> spec <p> <D> <loc> <s> <w> <invScale> <wdoc>`
                                    → `ok <adj> <m> <B> <C> <mdoc> <Cdoc>` | `singular`
   `validate rto|ugla …`            → `ok` | `ValueError` | `TypeError`
+  `factor <dim> <kind> <arr>`      (arr := `s:<q>` python number | `v:<vec>` 1-D | `m:<mat>` 2-D)
+                                   → `ok <branch> <size> <L>` | `irrational <branch> <size> <isCov> <S>` (the matrix the
+                                     factor's Gram matrix must equal / invert) | `flat1` | `err:ValueError` | `err:LinAlgError`
+  `loop legacy <N> <Nb> <maxit> problem <x0> <e>*`  (exact CGLS: tol = 0, eps = 2⁻⁵²; the draws in the order consumed)
+  `loop exp <Nb> <Ns> <maxit> problem <x0> <e>*`   → `ok <one row per returned sample>` | `ok empty` | `err:IndexError`
+  `uglaw <n> <p> <D p×n> <xk> <beta> <w>`          → `ok <residuals w⁴((D x_k)²+β)−1> <L2 = W^{1/2} D>`
+  `kinds <cov> <prec> <sqrtcov> <sqrtprec>` (0/1: argument given) → `cov|prec|sqrtcov|sqrtprec` | `none` | `err:ValueError`
 -/
 
 abbrev Q := Rat
@@ -232,7 +242,80 @@ def runUgla (n m : Nat) (A : TM) (d : TV) (L1 : TM) (kd : Kind) (sh : Shape Q) (
       some (tv n (mulVec n C.f g.f), C)
     s!"ok {fmtBool (adjOk && same)} {fmtV n mm.f} {fmtM n N B.f} {fmtM n n C.f} {optPair doc n}"
 
+/-- exact rational square-root oracle (checked again by `rootChecked`) -/
+def ratSqrt (a : Q) : Option Q :=
+  if a < 0 then none else
+  let n := a.num.natAbs
+  let d := a.den
+  let sn := Nat.sqrt n
+  let sd := Nat.sqrt d
+  if sn * sn = n && sd * sd = d then some (mkRat sn sd) else none
+
+/-- inverse oracle (untrusted elimination; checked by `invChecked`) -/
+def qInv (n : Nat) (A : Mat Q) : Option (Mat Q) :=
+  (QMat.inverse (toListM n n A)).map fun l => (tmOf l).f
+
+def parseArr (s : String) : Option (Arr Q) :=
+  match s.splitOn ":" with
+  | ["s", q] => (fun c => ({ twoD := true, rows := 1, cols := 1, a := fun _ _ => c } : Arr Q)) <$> parseRat q
+  | ["v", v] => (fun l => let t := tvOf l; ({ twoD := false, rows := l.length, cols := 1, a := fun i _ => t.f i } : Arr Q)) <$> parseVec v
+  | ["m", m] => (parseMat m).bind fun l =>
+      if l.all (fun r => r.length == QMat.ncols l) then
+        let t := tmOf l; some ({ twoD := true, rows := l.length, cols := QMat.ncols l, a := t.f } : Arr Q)
+      else none
+  | _ => none
+
+def fmtBranch : Branch → String
+  | .scalar => "scalar" | .vector => "vector" | .diagonal => "diagonal" | .full => "full"
+
+def fmtFacErr : FacErr → String
+  | .valueError => "err:ValueError" | .linAlgError => "err:LinAlgError"
+
+def runFactor (dim : Nat) (k : Kind) (x : Arr Q) : String :=
+  match sqrtprecOf ratSqrt qInv dim k x with
+  | .ok b sz L => s!"ok {fmtBranch b} {sz} {fmtM sz sz L}"
+  | .irrational b sz =>
+    s!"irrational {fmtBranch b} {sz} {fmtBool k.isCov} {fmtM sz sz (specMat true sz k (x.shapeIn k b))}"
+  | .flat1 => "flat1"
+  | .err e => fmtFacErr e
+
+def fmtSamples (n : Nat) (xs : List (Vec Q)) : String :=
+  if xs.isEmpty then "ok empty" else "ok " ++ fmtMat (xs.map (toListV n))
+
 def step : List String → String
+  | "loop" :: mode :: a :: b :: maxit :: ts =>
+    match a.toNat?, b.toNat?, maxit.toNat?, parseProblem ts with
+    | some a, some b, some maxit, some (P, x0 :: es) =>
+      match parseVec x0, es.mapM parseVec with
+      | some x0, some es =>
+        if P.liks.any (·.refused) || P.prior.refused then "err:ValueError" else
+        let pb := P.problem
+        let eps : Q := 1 / 4503599627370496
+        let draws := es.map fun e => (tvOf e).f
+        if mode == "legacy" then
+          match legacySample pb maxit 0 eps (tvOf x0).f a b draws with
+          | some xs => fmtSamples P.n xs
+          | none => "err:IndexError"
+        else if mode == "exp" then fmtSamples P.n (expSample pb maxit 0 eps (tvOf x0).f a b draws)
+        else "bad-op"
+      | _, _ => "bad-op"
+    | _, _, _, _ => "bad-op"
+  | ["uglaw", n, p, D, xk, beta, w] =>
+    match n.toNat?, p.toNat?, parseMat D, parseVec xk, parseRat beta, parseVec w with
+    | some n, some p, some D, some xk, some beta, some w =>
+      let U : Ugla Q := { n := n, lik := { m := 0, L := fun _ _ => 0, A := fun _ _ => 0, d := fun _ => 0 }, p := p,
+                          D := (tmOf D).f, loc := fun _ => 0, s := 1, w := (tvOf w).f }
+      s!"ok {fmtV p (U.weightResidual beta (tvOf xk).f)} {fmtM p n U.L2}"
+    | _, _, _, _, _, _ => "bad-op"
+  | ["factor", dim, kd, arr] =>
+    match dim.toNat?, parseKind kd, parseArr arr with
+    | some dim, some kd, some x => runFactor dim kd x
+    | _, _, _ => "bad-op"
+  | ["kinds", a, b, c, d] =>
+    if [a, b, c, d].any (fun s => s != "0" && s != "1") then "bad-op" else
+    match whichKind (a == "1") (b == "1") (c == "1") (d == "1") with
+    | .ok (some .cov) => "cov" | .ok (some .prec) => "prec" | .ok (some .sqrtcov) => "sqrtcov"
+    | .ok (some .sqrtprec) => "sqrtprec" | .ok none => "none" | .error e => fmtFacErr e
   | "rto" :: ts =>
     match parseProblem ts with
     | some (P, []) =>
